@@ -1,7 +1,9 @@
 /*
  * C04: corrupted bytes are detected, never returned as valid content.
  * A small closed file is generated (truth = submission model); fault families:
- *   a  every single-bit flip at every bit of the file (exhaustive)
+ *   a  every single-bit flip at every bit of the file (exhaustive); every third file is "deep" (a first
+ *      signal long enough for statistics served from level-1 and level-2 summaries): there the
+ *      single-bit flips cover every header, every non-DATA payload and four of the DATA payloads
  *   b  2- and 3-bit combinations inside one protected region (file header, a chunk header, a payload+CRC)
  *   c  bursts of 1..32 bits
  *   d  zeroed / 0xFF / random-overwritten ranges, several chunks at once, END chunk, file-header length
@@ -35,18 +37,22 @@ typedef struct {
     uint8_t *file; size_t size;
     region_t *reg; size_t nreg;
     int levels;
+    int deep;                      /* long first signal: statistics requests reach summary levels 1 and 2 */
+    uint64_t *fo, *fc; size_t nf;  /* family a: focus byte ranges [fo[i], fo[i+1]) start at cumulative bit fc[i]; */
+    uint64_t abits;                /* non-deep files: the whole file */
     char feat[200];
 } plan_t;
 
 static int g_file_has_omission;
-static void build_small(prog_t *p, rng_t *r, char *feat, size_t featn, int omission) {
+static void build_small(prog_t *p, rng_t *r, char *feat, size_t featn, int omission, int deep) {
     prog_add_source(p, 1, "flip-src");
     static const char *ta[] = {"f32", "f64", "i16", "u32", "i24"};
+    static const char *td[] = {"f32", "i16", "i24", "u16"};
     static const char *tb[] = {"u8", "u1", "u4", "i8", "i4"};
-    const dtype_t *t1 = dtype_by_name(RNG_PICK(r, ta)), *t2 = dtype_by_name(RNG_PICK(r, tb));
+    const dtype_t *t1 = dtype_by_name(deep ? RNG_PICK(r, td) : RNG_PICK(r, ta)), *t2 = dtype_by_name(RNG_PICK(r, tb));
     struct jls_signal_def_s d1, d2, n1, n2;
     gen_def(r, &d1, 3, 1, t1, DEF_TINYLEVELS);
-    d1.samples_per_data = 10; d1.entries_per_summary = 10; d1.summary_decimate_factor = 10;
+    d1.samples_per_data = deep ? 50 : 10; d1.entries_per_summary = deep ? 20 : 10; d1.summary_decimate_factor = 10;
     d1.annotation_decimate_factor = 2; d1.utc_decimate_factor = 2;
     d1.sample_id_offset = rng_chance(r, 1, 2) ? 0 : 1000;
     gen_def(r, &d2, 9, 1, t2, DEF_MINIMAL);
@@ -60,25 +66,29 @@ static void build_small(prog_t *p, rng_t *r, char *feat, size_t featn, int omiss
     /* signal 1: two summary levels; signal 2: a few blocks, one of them constant (omitted) */
     int64_t nA = def_level_span(&n1, 1) * 2 + rng_range(r, 1, n1.samples_per_data * 3);
     if (nA * t1->bits / 8 > 5000) nA = 5000 * 8 / t1->bits;
+    /* deep: > 25 level-2 entries, so requests are served from level-1 and level-2 summaries, several
+     * level-1 summary chunks and (with 10 entries per chunk) three level-2 chunks exist */
+    if (deep) nA = 25 * (int64_t) n1.sample_decimate_factor * n1.summary_decimate_factor + rng_range(r, 20, 400);
     int64_t nB = (int64_t) n2.samples_per_data * rng_range(r, 3, 5) + rng_range(r, 0, 20);
     if (nB * t2->bits / 8 > 3000) nB = 3000 * 8 / t2->bits;
     int64_t pa = 0, pb = 0; int64_t fa = d1.sample_id_offset;
     int k = 0;
     while (pa < nA || pb < nB) {
-        if (pa < nA) { int64_t c = rng_range(r, 1, nA / 6 + 1); if (c > nA - pa) c = nA - pa; op_t *o = prog_add(p, OP_FSR); o->id = 3; o->sid = fa + pa; o->n = (uint32_t) c; o->vseed = rng_u64(r); pa += c; }
+        if (pa < nA) { int64_t c = rng_range(r, deep ? nA / 12 : 1, nA / 6 + 1); if (c > nA - pa) c = nA - pa; op_t *o = prog_add(p, OP_FSR); o->id = 3; o->sid = fa + pa; o->n = (uint32_t) c; o->vseed = rng_u64(r); pa += c; }
         if (pb < nB) { int64_t c = rng_range(r, 1, nB / 4 + 1); if (c > nB - pb) c = nB - pb; op_t *o = prog_add(p, OP_FSR); o->id = 9; o->sid = pb; o->n = (uint32_t) c; o->vseed = rng_u64(r); pb += c; }
         if (k < 9) { op_t *a = prog_add(p, OP_ANNO); a->id = (k & 1) ? 3 : 0; a->ts = (k & 1) ? fa + pa - 1 : k; a->y = 1.25f; a->atype = (uint8_t) (k & 3); a->stype = (uint8_t) (1 + k % 3); a->dsize = (uint32_t) rng_range(r, 1, 20); a->dseed = rng_u64(r); a->group = (uint8_t) k; }
         if (k < 6) { op_t *u = prog_add(p, OP_UTC); u->id = 3; u->sid = fa + pa - 1; u->utc = JLS_TIME_SECOND * 100 + pa * 1000; }
         if (k == 2 || k == 5) { op_t *u = prog_add(p, OP_USER); u->meta = (uint16_t) (0x100 + k); u->stype = (uint8_t) (1 + k % 3); u->dsize = (uint32_t) rng_range(r, 1, 40); u->dseed = rng_u64(r); }
         ++k;
     }
-    snprintf(feat, featn, "%s+%s|offset=%lld|constant-blocks=%d", t1->name, t2->name, (long long) d1.sample_id_offset, omission);
+    snprintf(feat, featn, "%s+%s|offset=%lld|constant-blocks=%d|deep=%d", t1->name, t2->name, (long long) d1.sample_id_offset, omission, deep);
 }
 
-static int make_plan(plan_t *pl, rng_t *r, const char *path, int omission) {
+static int make_plan(plan_t *pl, rng_t *r, const char *path, int omission, int deep) {
     memset(pl, 0, sizeof(*pl));
+    pl->deep = deep;
     prog_init(&pl->p);
-    build_small(&pl->p, r, pl->feat, sizeof(pl->feat), omission);
+    build_small(&pl->p, r, pl->feat, sizeof(pl->feat), omission, deep);
     model_init(&pl->m, &pl->p);
     exec_opts_t eo = {.kind = WR_SYNC, .stop_after = -1};
     if (exec_prog(&pl->p, &pl->m, path, &eo)) return -1;
@@ -95,6 +105,21 @@ static int make_plan(plan_t *pl, rng_t *r, const char *path, int omission) {
         if (c->plen) { uint64_t dl = (((uint64_t) c->plen + 4) + 7) & ~7ULL; pl->reg[pl->nreg++] = (region_t) {c->off + 32, c->off + 32 + dl, 2, c->tag}; }
     }
     for (int s = 1; s < 256; ++s) for (int l = 1; l < JD_LEVELS; ++l) if (d.sig[s].summary[JD_TT_FSR][l].n && l > pl->levels) pl->levels = l;
+    /* family a focus: everything, except that a deep file's FSR DATA payloads are represented by the first three and the last one */
+    pl->fo = calloc(2 * pl->nreg + 4, sizeof(uint64_t)); pl->fc = calloc(2 * pl->nreg + 4, sizeof(uint64_t));
+    {
+        size_t ndata = 0, seen = 0;
+        for (size_t i = 0; i < pl->nreg; ++i) if (pl->reg[i].kind == 2 && pl->reg[i].tag == 0x22) ndata++;
+        uint64_t cum = 0;
+        for (size_t i = 0; i < pl->nreg; ++i) {
+            int take = 1;
+            if (deep && pl->reg[i].kind == 2 && pl->reg[i].tag == 0x22) { take = seen < 3 || seen + 1 == ndata; seen++; }
+            if (!take) continue;
+            pl->fo[2 * pl->nf] = pl->reg[i].off; pl->fo[2 * pl->nf + 1] = pl->reg[i].end; pl->fc[pl->nf] = cum;
+            cum += (pl->reg[i].end - pl->reg[i].off) * 8; pl->nf++;
+        }
+        pl->abits = cum;
+    }
     g_file_has_omission = 0;
     for (int s = 1; s < 256; ++s) {
         const jd_list_t *il = &d.sig[s].index[JD_TT_FSR][1];
@@ -109,7 +134,7 @@ static int make_plan(plan_t *pl, rng_t *r, const char *path, int omission) {
     return 0;
 }
 
-static void plan_free(plan_t *pl) { free(pl->file); free(pl->reg); model_free(&pl->m); prog_free(&pl->p); }
+static void plan_free(plan_t *pl) { free(pl->file); free(pl->reg); free(pl->fo); free(pl->fc); model_free(&pl->m); prog_free(&pl->p); }
 
 static const region_t *region_of(const plan_t *pl, uint64_t off) {
     size_t lo = 0, hi = pl->nreg;
@@ -153,6 +178,12 @@ static int make_fault(const plan_t *pl, const ctx_t *c, uint64_t n, fault_t *f) 
     memset(f, 0, sizeof(*f));
     uint64_t nbits = (uint64_t) pl->size * 8;
     rng_t r; rng_seed(&r, vmix(g_seed ^ 0xF11F, n));
+    if (n < pl->abits) {
+        size_t lo = 0, hi = pl->nf;
+        while (hi - lo > 1) { size_t mid = (lo + hi) / 2; if (pl->fc[mid] <= n) lo = mid; else hi = mid; }
+        n = pl->fo[2 * lo] * 8 + (n - pl->fc[lo]);
+    }
+    else n = n - pl->abits + nbits;
     if (n < nbits) { f->family = 'a'; xor_bit(f, n); snprintf(f->desc, sizeof(f->desc), "flip bit %llu (byte %llu)", (unsigned long long) n, (unsigned long long) (n / 8)); return 1; }
     n -= nbits;
     if ((int64_t) n < c->n_b) {
@@ -296,10 +327,10 @@ static void run_case(uint64_t idx, void *vctx) {
     jls_quiet();
     plan_t pl;
     const char *path = v_path("flip-orig.jls");
-    int prc = make_plan(&pl, &r, path, (int) (prog & 1));
+    int prc = make_plan(&pl, &r, path, (int) (prog & 1), (prog % 3) == 1);
     unlink(path);
     if (prc) { if (shard == 0) v_note("C04", "file %llu could not be generated cleanly (rc %d): skipped", (unsigned long long) prog, prc); return; }
-    uint64_t total = (uint64_t) pl.size * 8 + (uint64_t) (c->n_b + c->n_c + c->n_d);
+    uint64_t total = pl.abits + (uint64_t) (c->n_b + c->n_c + c->n_d);
     if (shard == 0) {
         v_count("C04", "files", 1);
         v_count("C04", "file_bytes", (int64_t) pl.size);
